@@ -8,8 +8,9 @@ from ..pipeline import Leg
 ID = 'C17'
 HARNESS_BIN = 'c17'
 RUN_MODULE = 'Run.C17'
-THEOREMS_PLANNED = ['C17_content_matches', 'C17_serves_the_intended_archive', 'C17_bad_upload_leaves_nothing',
-            'C17_crashed_upload_leaves_nothing', 'C17_key_path_total', 'C17_invalid_id_no_effect']
+THEOREMS = ['C17_content_matches', 'C17_serves_the_intended_archive', 'C17_bad_upload_leaves_nothing',
+            'C17_crashed_upload_leaves_nothing', 'C17_key_path_total', 'C17_invalid_id_no_effect',
+            'C17_client_content_matches']
 ASSUMPTIONS = [
     'the digest (BLAKE3 via util::Digest) is an abstract function; C17_serves_the_intended_archive additionally assumes '
     'it is injective on the contents in play ("no BLAKE3 collision", hypothesis no_collision); the other theorems hold for ANY digest function',
@@ -149,6 +150,13 @@ def gen_random(rng, n, maxlen):
             else:
                 tgt = i if rng.chance(5, 6) else rng.choice(UNKNOWN_IDS)
                 ops.append([kind.encode(), tgt])
+        if rng.chance(1, 2):
+            # final sweep: (restart and) ask for every id that was ever declared
+            if rng.chance(1, 3):
+                ops.append([b'reopen', cap])
+            for tgt in sorted(set(op[1] for op in ops if op[0] in (b'insert_with', b'crash_upload')) |
+                              set(_hash_cache[c] for c in pool)):
+                ops.append([b'get', tgt])
         out.append(mk_case(cap, init, ops))
     return out
 
@@ -250,10 +258,10 @@ def stats(case, out):
         if op[0] in (b'insert_with', b'crash_upload'):
             if not valid(op[1]):
                 t += ':invalid_id'
-            elif dig.get(op[2]) != op[1]:
-                t += ':mismatch'
             elif op[0] == b'insert_with' and op[3]:
                 t += ':cut'
+            elif dig.get(op[2]) != op[1]:
+                t += ':mismatch'
             else:
                 t += ':match'
         ks.append('op=' + t)
@@ -291,6 +299,104 @@ def neighbours(case):
             yield rebuild(case, ops=ops[:i + 1] + [[b'get', op[1]]] + ops[i + 1:])
 
 
+# ---------------------------------------------------------------- the client side (ClientToolchains)
+
+WEAK = [b'w1', b'w2', b'w3', b'w4']
+
+
+def mk_client(cap, ops):
+    contents = list(dict.fromkeys(op[2] for op in ops if op[0] == b'put'))
+    ids = real_ids(contents)
+    return [cap, [[c, i] for c, i in zip(contents, ids)], ops]
+
+
+def gen_client(rng, n, maxlen):
+    real_ids(CONTENTS)
+    out = []
+    for _ in range(n):
+        cap = rng.weighted([(25, 5), (40, 4), (100, 3), (10, 1), (0, 1)])
+        pool = [rng.choice(CONTENTS) for _ in range(rng.range(2, 5))]
+        ops = []
+        for _ in range(rng.range(1, maxlen)):
+            kind = rng.weighted([('put', 8), ('get', 8), ('reopen', 2)])
+            c = rng.choice(pool)
+            if kind == 'put':
+                ops.append([b'put', rng.choice(WEAK), c, 1 if rng.chance(1, 6) else 0])
+            elif kind == 'get':
+                ops.append([b'get', _hash_cache[c] if rng.chance(7, 8) else rng.choice(UNKNOWN_IDS + INVALID_IDS)])
+            else:
+                ops.append([b'reopen', cap if rng.chance(3, 4) else rng.choice(CAPS)])
+        out.append(mk_client(cap, ops))
+    return out
+
+
+def monitor_client(case, out):
+    """Client side: whatever get_toolchain returns for an id hashes to that id; every archive in the client's cache
+    sits under the digest of its content; put_toolchain answers with the digest of what it packaged (or with the id
+    recorded earlier for that weak key); nothing is left in toolchain_tmp; nothing panics."""
+    cap, table, ops = case
+    dig = {bytes(c): bytes(i) for c, i in table}
+    if out == [b'bad_table']:
+        return []
+    if not isinstance(out, list) or len(out) != len(ops) + 1:
+        return ['malformed implementation output']
+    vs = []
+    weak = {}
+    for n, obs in enumerate(out):
+        op = ops[n - 1] if n > 0 else None
+        if obs and obs[0] == b'panic':
+            vs.append('op %d %s: the client toolchain store panicked' % (n, op))
+            break
+        res, ret, touched, files, ntmp = obs
+        for path, content, mt, d in files:
+            if path != kp(d):
+                vs.append('op %d %s: file %r holds content whose digest is %r' % (n, op, path, d))
+        if ntmp != 0:
+            vs.append('op %d %s: %d temporary file(s) left behind' % (n, op, ntmp))
+        if op is not None and op[0] == b'get' and res == b'ok':
+            if len(ret) != 2 or ret[1] != op[1]:
+                vs.append('op %d get %r: returned content with digest %r' % (n, op[1], ret[1] if len(ret) == 2 else None))
+        if op is not None and op[0] == b'put' and res == b'ok':
+            w, c = op[1], op[2]
+            if w in weak:
+                if ret != [weak[w]]:
+                    vs.append('op %d put: weak key %r answered %r, recorded %r' % (n, w, ret, weak[w]))
+            else:
+                if ret != [dig.get(c)]:
+                    vs.append('op %d put: packaged content with digest %r stored as %r' % (n, dig.get(c), ret))
+                if op[3]:
+                    vs.append('op %d put: a failed packaging was stored' % n)
+                weak[w] = ret[0] if ret else None
+    return vs
+
+
+def shrink_client(case):
+    cap, table, ops = case
+    for i in range(len(ops)):
+        yield mk_client(cap, ops[:i] + ops[i + 1:])
+
+
+def neighbours_client(case):
+    cap, table, ops = case
+    for i in range(1, len(ops) + 1):
+        yield mk_client(cap, ops[:i] + [[b'reopen', cap]] + ops[i:])
+    for i, op in enumerate(ops):
+        if op[0] == b'put':
+            yield mk_client(cap, ops[:i + 1] + [[b'get', _hash_cache.get(op[2], b'ab')]] + ops[i + 1:])
+
+
+def stats_client(case, out):
+    ks = ['cap=%d' % case[0]]
+    for op in case[2]:
+        ks.append('op=' + op[0].decode() + (':fail' if op[0] == b'put' and op[3] else ''))
+    try:
+        for obs in out:
+            ks.append('res=' + obs[0].decode())
+    except Exception:
+        pass
+    return ks
+
+
 def legs(tier):
     def gen(rng, tier):
         if tier == 'thorough':
@@ -302,4 +408,10 @@ def legs(tier):
                      '(writer error) and cut by a server crash + restart, insert_file, get, contains, remove, reopen over '
                      '19 contents x 5 capacities, incl. pre-populated directories with temp leftovers; ids are real BLAKE3 '
                      'ids computed by the code under test; non-trivial = some upload rejected / crashed or an eviction; '
-                     'distinct by full case text')]
+                     'distinct by full case text'),
+            Leg('client', lambda rng, tier: gen_client(rng, 20000 if tier == 'thorough' else 1500, 25),
+                monitor=monitor_client, shrink=shrink_client, neighbours=neighbours_client, stats=stats_client,
+                nontrivial=lambda case, out: any(o and o[0] in (b'too_large', b'rejected', b'not_in_cache', b'panic') for o in out),
+                rule='PRNG sequences of length<=25 of put_toolchain (4 weak keys, 19 contents, packaging failures), '
+                     'get_toolchain (known / unknown / invalid ids) and restarts over 5 capacities on the real '
+                     'ClientToolchains; non-trivial = some put refused / failed or some lookup missed')]
